@@ -20,6 +20,7 @@ import time
 import traceback
 
 VERIF = os.path.dirname(os.path.dirname(os.path.abspath(__file__)))
+OUT = os.environ.get("VERIF_OUT", VERIF)   # where evidence/ and replays/ are written (mutant runs redirect it)
 NPROC = int(os.environ.get("VERIF_NPROC", "16"))
 MAX_FILES_PER_ORACLE = 5
 MAX_OUTCOMES = 2000
@@ -243,7 +244,7 @@ def run_check(check_id, tier, seed):
     # counts of violations beyond the recorded ones cannot be matched individually: if an oracle has
     # more violations than records (cap 40 per unit) we still decide on the recorded ones, which
     # are the first 40 of each unit in enumeration order.
-    rdir = os.path.join(VERIF, "replays", check_id)
+    rdir = os.path.join(OUT, "replays", check_id)
     os.makedirs(rdir, exist_ok=True)
     for fn in os.listdir(rdir):
         os.unlink(os.path.join(rdir, fn))
@@ -307,8 +308,8 @@ def run_check(check_id, tier, seed):
         "wall_s": round(time.time() - t0, 2),
         "violations": len(unknown),
     }
-    os.makedirs(os.path.join(VERIF, "evidence"), exist_ok=True)
-    with open(os.path.join(VERIF, "evidence", check_id + ".json"), "w") as fh:
+    os.makedirs(os.path.join(OUT, "evidence"), exist_ok=True)
+    with open(os.path.join(OUT, "evidence", check_id + ".json"), "w") as fh:
         json.dump(ev, fh, indent=1, sort_keys=True, default=repr)
 
     print("%s tier=%s seed=%d repo=%s units=%d states=%d transitions=%d executions=%d wall=%.1fs" % (
